@@ -17,6 +17,10 @@ CONSTANTS
   SpUnits = {}
   Hists = {}
   HUnits = {}
+  DerUnits = {}
+  DHists = {}
+  DArrFns = {}
+  DepthForms = {}
 INIT Init
 NEXT TNextAll
 INVARIANT Export
